@@ -1010,7 +1010,15 @@ pub unsafe extern "C" fn SFileGetFileName(file: HANDLE, buffer: *mut c_char) -> 
         }
     };
 
-    std::ptr::copy_nonoverlapping(c_name.as_ptr(), buffer, c_name.as_bytes_with_nul().len());
+    // The caller's buffer has no length argument: as in StormLib it holds MAX_PATH (260)
+    // characters, so a longer name cannot be returned
+    let name_len = c_name.as_bytes_with_nul().len();
+    if name_len > 260 {
+        set_last_error(ERROR_INSUFFICIENT_BUFFER);
+        return false;
+    }
+
+    std::ptr::copy_nonoverlapping(c_name.as_ptr(), buffer, name_len);
 
     set_last_error(ERROR_SUCCESS);
     true
